@@ -171,6 +171,12 @@ def handlers : List (String × Handler) := [
       | some f, some re, some ds, some s, some v => "ok " ++ toString (validJ re f ds s v)
       | _, _, _, _, _ => "err args"
     | _ => "err args"),
+  -- sem.validn <fuel> <regex-table> <defs> <schema> <json>   (validity up to null for a non-required member)
+  ("sem.validn", fun
+    | [f, re, ds, s, v] => match f.nat?, regex? re, defs? ds, schema? s, json? v with
+      | some f, some re, some ds, some s, some v => "ok " ++ toString (validJN re f ds s v)
+      | _, _, _, _, _ => "err args"
+    | _ => "err args"),
   -- sem.insubset <defs> <schema>
   ("sem.insubset", fun
     | [ds, s] => match defs? ds, schema? s with
